@@ -162,7 +162,7 @@ func (t Time) Add(input Quantity) (Time, error) {
 	}
 	duration = roundToTimePrecision(timeMap[t.l], duration)
 	duration = truncateToLayout(t.l, duration)
-	return Time{t.time.Add(duration), t.l}, nil
+	return Time{wrapAroundMidnight(t.time.Add(duration)), t.l}, nil
 }
 
 // Sub returns the result of the time-valued quantity subtracted from t.
@@ -174,12 +174,18 @@ func (t Time) Sub(input Quantity) (Time, error) {
 	}
 	duration = roundToTimePrecision(timeMap[t.l], duration)
 	duration = truncateToLayout(t.l, duration)
-	return Time{t.time.Add(-duration), t.l}, nil
+	return Time{wrapAroundMidnight(t.time.Add(-duration)), t.l}, nil
 }
 
 // roundToTimePrecision is used to round down to the highest precision of
 // the time value.
 // Eg. 08:30 + 59 'seconds' = 08:30, but 08:30 + 60 'seconds' = 08:31
+// wrapAroundMidnight moves a time that crossed midnight back onto the day all
+// Time values live on, so that it compares as a time of day.
+func wrapAroundMidnight(t time.Time) time.Time {
+	return time.Date(0, time.January, 1, t.Hour(), t.Minute(), t.Second(), t.Nanosecond(), time.UTC)
+}
+
 func roundToTimePrecision(p timePrecision, d time.Duration) time.Duration {
 	switch p {
 	case hour:
